@@ -726,7 +726,7 @@ radius_client_query(radius_cli_p rad_cli, tpt_p tpt, size_t query_id,
 	if (NULL == rad_cli || NULL == tpt || NULL == buf || NULL == cb_func)
 		return (EINVAL);
 	/* Add NAS-Identifier to Access-Request.*/
-	if (RADIUS_PKT_TYPE_ACCESS_REQUEST == ((rad_pkt_hdr_p)buf)->code) {
+	if (RADIUS_PKT_TYPE_ACCESS_REQUEST == ((rad_pkt_hdr_p)buf->data)->code) {
 		error = radius_pkt_attr_add(((rad_pkt_hdr_p)buf->data),
 		    buf->size, &buf->used, RADIUS_ATTR_TYPE_NAS_IDENTIFIER,
 		    (uint8_t)rad_cli->s.NAS_Identifier_size,
